@@ -421,18 +421,18 @@ impl Bucket {
         requires new_node.wf(), old(self).wf(),
             new_node.last_request is None || forall|i: int| 0 <= i < 8 && same_handle(#[trigger] old(self).nodes[i], new_node) ==> st(old(self).nodes[i]) != NodeStatus::Good,
         ensures final(self).wf(),
-            (final(self).nodes@, r) == bucket_add_spec(old(self).nodes@, new_node),
-            old(self).nodup() ==> final(self).nodup(),
+            (final(self).nodes@, r) == bucket_add_spec(old(self).nodes@, new_node), // @C08.bucket_add_functional_spec
+            old(self).nodup() ==> final(self).nodup(), // @C08.no_duplicate_handle
             forall|j: int| 0 <= j < 8 && real(#[trigger] final(self).nodes[j]) ==> (real(old(self).nodes[j]) && same_handle(final(self).nodes[j], old(self).nodes[j])) || same_handle(final(self).nodes[j], new_node),
             forall|j: int| 0 <= j < 8 ==> #[trigger] final(self).nodes[j] == old(self).nodes[j] || (same_handle(final(self).nodes[j], new_node) && real(new_node)),
             forall|j: int| 0 <= j < 8 && real(#[trigger] old(self).nodes[j]) ==> real(final(self).nodes[j]) && same_handle(final(self).nodes[j], old(self).nodes[j]) || same_handle(final(self).nodes[j], new_node),
             // at most one slot changes
-            exists|k: int| #[trigger] unchanged_except(old(self).nodes, final(self).nodes, k),
-            st(new_node) == NodeStatus::Bad ==> r && final(self).nodes == old(self).nodes,
+            exists|k: int| #[trigger] unchanged_except(old(self).nodes, final(self).nodes, k), // @C08.at_most_one_slot_changes
+            st(new_node) == NodeStatus::Bad ==> r && final(self).nodes == old(self).nodes, // @C08.bad_offer_ignored
             // repeat offer: updated in place, never duplicated
             st(new_node) != NodeStatus::Bad && (exists|i: int| 0 <= i < 8 && same_handle(#[trigger] old(self).nodes[i], new_node)) ==> r
                 && forall|j: int| 0 <= j < 8 && final(self).nodes[j] != #[trigger] old(self).nodes[j] ==> same_handle(old(self).nodes[j], new_node)
-                       && same_handle(final(self).nodes[j], new_node) && rank(st(final(self).nodes[j])) >= rank(st(old(self).nodes[j])),
+                       && same_handle(final(self).nodes[j], new_node) && rank(st(final(self).nodes[j])) >= rank(st(old(self).nodes[j])), // @C08.repeat_offer_updated_in_place
             // newcomer: victim has strictly lower standing, and is Bad whenever a Bad slot exists
             st(new_node) != NodeStatus::Bad && !(exists|i: int| 0 <= i < 8 && same_handle(#[trigger] old(self).nodes[i], new_node)) ==>
                 (r <==> exists|i: int| 0 <= i < 8 && rank(st(#[trigger] old(self).nodes[i])) < rank(st(new_node)))
@@ -440,7 +440,7 @@ impl Bucket {
                           && rank(st(old(self).nodes[k])) < rank(st(new_node))
                           && ((exists|i: int| 0 <= i < 8 && st(#[trigger] old(self).nodes[i]) == NodeStatus::Bad) ==> st(old(self).nodes[k]) == NodeStatus::Bad
                                 && forall|j: int| 0 <= j < k ==> st(#[trigger] old(self).nodes[j]) != NodeStatus::Bad))
-                && (!r ==> final(self).nodes == old(self).nodes),
+                && (!r ==> final(self).nodes == old(self).nodes), // @C08.victim_strictly_lower_and_bad_slot_first
     {
         broadcast use node_status_ord_ax;
         let new_node_status = new_node.status();
@@ -1255,6 +1255,59 @@ pub fn bucket_placement(num_same_bits: usize, num_buckets: usize) -> (r: usize)
 }
 //@end
 
+
+
+// ---------- C08 corollaries, stated as in the property ----------
+/// no (id, address) pair appears twice in the whole table
+//@props C08
+pub proof fn lemma_table_nodup(t: RoutingTable, i: int, k: int, j: int, l: int)
+    requires t.wf(), 0 <= i < t.buckets.len(), 0 <= j < t.buckets.len(), 0 <= k < 8, 0 <= l < 8, (i, k) != (j, l),
+        real(t.buckets[i].nodes[k]), real(t.buckets[j].nodes[l]),
+    ensures !same_handle(t.buckets[i].nodes[k], t.buckets[j].nodes[l]) // @C08.no_pair_twice
+{
+    broadcast use lbc_ax;
+    if i == j {
+        if k < l { assert(t.buckets[i].nodup()); } else { assert(t.buckets[i].nodup()); }
+    } else {
+        assert(placed(t, i, t.buckets[i].nodes[k]));
+        assert(placed(t, j, t.buckets[j].nodes[l]));
+    }
+}
+/// the local id is never listed; every real entry sits in the bucket of its shared-prefix length
+//@props C08
+pub proof fn lemma_table_placement(t: RoutingTable, i: int, k: int)
+    requires t.wf(), 0 <= i < t.buckets.len(), 0 <= k < 8, real(t.buckets[i].nodes[k]),
+    ensures t.buckets[i].nodes[k].handle.id != t.node_id, // @C08.own_id_never_listed
+        i == placement_spec(lbc(t.node_id, t.buckets[i].nodes[k].handle.id) as int, t.buckets.len() as int), // @C08.bucket_matches_prefix
+        !t.routers@.contains(t.buckets[i].nodes[k].handle.addr), // @C08.router_never_listed
+{
+    broadcast use lbc_ax;
+    reveal(RoutingTable::routers_ok);
+    assert(placed(t, i, t.buckets[i].nodes[k]));
+}
+/// a full bucket of good nodes rejects a newcomer and stays unchanged
+//@props C08
+pub proof fn lemma_full_good_bucket_rejects(b: Seq<Node>, n: Node)
+    requires b.len() == 8, forall|k: int| 0 <= k < 8 ==> st(#[trigger] b[k]) == NodeStatus::Good && !same_handle(b[k], n),
+    ensures bucket_add_spec(b, n) == (b, st(n) == NodeStatus::Bad) // @C08.full_good_bucket_rejects
+{
+    lemma_first_is(b, p_same(n), 0, 8);
+    lemma_first_is(b, p_bad(), 0, 8);
+    lemma_first_is(b, p_lower(st(n)), 0, 8);
+}
+/// when the bucket has a free or bad slot, a newcomer displaces no live node
+//@props C08
+pub proof fn lemma_bad_slot_protects_live(b: Seq<Node>, n: Node, k: int)
+    requires b.len() == 8, 0 <= k < 8, st(b[k]) == NodeStatus::Bad, st(n) != NodeStatus::Bad,
+        forall|j: int| 0 <= j < 8 ==> !same_handle(#[trigger] b[j], n),
+    ensures bucket_add_spec(b, n).1, // @C08.admitted_when_room
+        forall|j: int| 0 <= j < 8 && live(#[trigger] b[j]) ==> bucket_add_spec(b, n).0[j] == b[j], // @C08.no_live_victim_while_bad_slot
+{
+    lemma_first_is(b, p_same(n), 0, 8);
+    lemma_first(b, p_bad(), 0);
+    let d = first(b, p_bad(), 0);
+    assert(d < 8) by { if d >= 8 { assert(!p_bad()(b[k])); } }
+}
 
 // ================= C09: order in which ClosestNodes walks the buckets =================
 /// rank of bucket index c in the walk that starts at s: s, s+1, s-1, s+2, s-2, ...
